@@ -219,6 +219,54 @@ def r_zst_ptr(F, V):
             R.inst(key2, "arm ignores %s" % names, "violation", True, where(fb, bb=d[1]))
         else:
             R.inst(key2, "both arms are functions of %s" % sorted(fb.locals[m].get("name") or "_%d" % m for m in req), "ok", True, where(fb))
+    # the index encoding of zero-sized buckets is a codec: from_base_index stores `index + K`, to_base_index returns
+    # `ptr - K` with the same K (any K; both directions must agree or every erase/retain acts on a neighbouring slot)
+    fb_, tb_ = F.bodies.get("raw::Bucket::from_base_index"), F.bodies.get("raw::Bucket::to_base_index")
+    if fb_ is not None and tb_ is not None:
+        import re as _re
+
+        def _zst_k(bd, which):
+            ks = set()
+            for l in range(len(bd.locals)):
+                wd = bd.whole_defs(l)
+                if len(wd) <= 1 or bd.locals[l]["ty"]["s"] in ("bool", "()"):
+                    continue
+                for d in wd:
+                    ops = d[3]["args"] if d[0] == "call" else rv_operands(d[3]["rv"])
+                    # the zero-sized arm is the one NOT using pointer arithmetic on a base pointer (no `sub` / offset_from call)
+                    if d[0] == "call" and ((callee_path(d[3]) or "").endswith("::sub") or (callee_path(d[3]) or "").endswith("offset_from")):
+                        continue
+                    key_ = expr_key(bd, {"k": "copy", "p": {"l": l}}) if False else None
+                    if d[0] == "call":
+                        ek = expr_key(bd, ops[0]) if ops else ""
+                    else:
+                        rv = d[3]["rv"]
+                        ek = expr_key(bd, rv["op"]) if rv["k"] in ("use", "cast") else ("%s(%s,%s)" % (rv["op"].replace("WithOverflow", ""), expr_key(bd, rv["a"]), expr_key(bd, rv["b"])) if rv["k"] == "binop" else "")
+                    m = _re.match(r"^(Add|Sub)\((.*),c:(\d+):usize\)(\.0)?$", ek)
+                    if m and m.group(1) == which:
+                        ks.add(int(m.group(3)))
+                    elif m:
+                        ks.add(-int(m.group(3)))
+                    elif _re.match(r"^a\d+$", ek) or _re.match(r"^[A-Za-z_:<> ]*as_ptr\(a\d+[.a-z_]*\)$", ek):
+                        ks.add(0)
+                    elif ek:
+                        ks.add("other: " + ek[:60])
+            return ks
+        kf, kt = _zst_k(fb_, "Add"), _zst_k(tb_, "Sub")
+        key3 = "raw::Bucket::{from,to}_base_index|zst-codec"
+        if len(kf) == 1 and len(kt) == 1 and all(isinstance(x, int) for x in list(kf) + list(kt)):
+            if kf == kt:
+                R.inst(key3, "zero-sized encoding: from_base_index stores index + %d, to_base_index subtracts %d" % (list(kf)[0], list(kt)[0]), "ok", True, where(tb_))
+            else:
+                R.violation(key3, tb_, "the index encoding of zero-sized buckets is not inverted: from_base_index stores index + %d but to_base_index subtracts %d: bucket_index() is off by one for "
+                            "zero-sized elements, so erase / remove / retain clear a neighbouring slot (the element stays FULL while len() drops)" % (list(kf)[0], list(kt)[0]))
+                R.inst(key3, "encode/decode constants differ", "violation", True, where(tb_))
+        elif any(isinstance(x, str) for x in list(kf) + list(kt)) and len(kf) == 1 and len(kt) == 1:
+            R.violation(key3, tb_, "the index encoding of zero-sized buckets is not an `index + K` / `ptr - K` pair any more (from_base_index: %s, to_base_index: %s): unless the two are exact inverses "
+                        "bucket_index() is wrong for zero-sized elements and erase / remove / retain act on another slot" % (sorted(map(str, kf)), sorted(map(str, kt))))
+            R.inst(key3, "encode/decode not inverse", "violation", True, where(tb_))
+        else:
+            R.inst(key3, "zero-sized arms not of the form index +/- K: not judged (%s / %s)" % (sorted(map(str, kf)), sorted(map(str, kt))), "exempt", False, where(tb_))
     return R
 
 
@@ -272,8 +320,96 @@ def r_group_defs(F, V):
             else:
                 R.violation(key, b, "match_full is not the inversion of match_empty_or_deleted (callees: %s): tombstones would be reported as full buckets" % sorted(set(c.split("::")[-1] for c in callees)))
                 R.inst(key, "match_full definition differs", "violation", True, where(b))
+    # lane predicates of the SSE2 back-end, read off the resolved intrinsics (definitions, not bit tricks): which lanes a
+    # scan selects is either "the sign bit" (EMPTY and DELETED, the two special tags) or "equal to one given tag"
+    want = {"match_tag": "eq:arg", "match_empty": "eq:EMPTY", "match_empty_or_deleted": "sign",
+            "convert_special_to_empty_and_full_to_deleted": "sign"}
+    tagc = {255: "EMPTY", 128: "DELETED"}
+    for fn, expected in want.items():
+        p = "control::group::sse2::Group::" + fn
+        b = F.bodies.get(p)
+        if b is None:
+            continue
+        kind = _lane_predicate(F, b, tagc)
+        key = p + "|lanes"
+        if kind is None:
+            R.inst(key, "lane predicate not recognised: not judged", "exempt", False, where(b))
+            continue
+        n += 1
+        if kind == expected:
+            R.inst(key, "selects lanes by %s" % kind, "ok", True, where(b))
+        else:
+            R.violation(key, b, "%s selects lanes by `%s` but its contract needs `%s` (sign = both special tags EMPTY and DELETED; eq:X = exactly the lanes holding X): e.g. a conversion that "
+                        "treats only EMPTY as special leaves tombstones DELETED, and the in-place rehash then re-inserts removed elements as live ones" % (fn, kind, expected))
+            R.inst(key, "lane predicate %s, expected %s" % (kind, expected), "violation", True, where(b))
+    if "control::group::sse2::Group::convert_special_to_empty_and_full_to_deleted" in F.bodies:
+        b = F.bodies["control::group::sse2::Group::convert_special_to_empty_and_full_to_deleted"]
+        key = "control::group::sse2::Group::convert_special_to_empty_and_full_to_deleted|or-deleted"
+        ors = [t for i, t in b.calls() if (callee_path(t) or "").endswith("_mm_or_si128")]
+        ok = False
+        for t in ors:
+            for a in t["args"]:
+                for og in b.origins(a):
+                    if og[0] == "call" and (callee_path(og[2]) or "").endswith("_mm_set1_epi8"):
+                        for og2 in b.origins(og[2]["args"][0]):
+                            if og2[0] == "const" and og2[1].get("val") == 128:
+                                ok = True
+        if ors:
+            if ok:
+                R.inst(key, "selected lanes | DELETED: special -> 0xFF (EMPTY), full -> 0x80 (DELETED)", "ok", True, where(b))
+            else:
+                R.violation(key, b, "the conversion does not OR the lane mask with Tag::DELETED: full lanes are not turned into DELETED (the 'to be rehashed' marker of the in-place rehash)")
     R.floor("scanner back-ends", n, 1)
     return R
+
+
+def _lane_predicate(F, b, tagc, depth=0):
+    """'sign' | 'eq:arg' | 'eq:EMPTY' | 'eq:DELETED' | None for an SSE2 group function"""
+    if depth > 3:
+        return None
+    kinds = set()
+    for i, t in b.calls():
+        cp = callee_path(t) or ""
+        if cp.endswith("_mm_cmpeq_epi8"):
+            other = None
+            for a in t["args"]:
+                for og in b.origins(a):
+                    if og[0] == "call" and (callee_path(og[2]) or "").endswith("_mm_set1_epi8"):
+                        for og2 in b.origins(og[2]["args"][0]):
+                            if og2[0] == "const" and og2[1].get("val") in tagc:
+                                other = "eq:" + tagc[og2[1]["val"]]
+                            elif og2[0] == "arg":
+                                other = "eq:arg"
+            if other:
+                kinds.add(other)
+        elif cp.endswith("_mm_cmpgt_epi8") or cp.endswith("_mm_cmplt_epi8"):
+            zero_pos = None
+            for q, a in enumerate(t["args"]):
+                if any(og[0] == "call" and (callee_path(og[2]) or "").endswith("_mm_setzero_si128") for og in b.origins(a)):
+                    zero_pos = q
+            if (cp.endswith("cmpgt_epi8") and zero_pos == 0) or (cp.endswith("cmplt_epi8") and zero_pos == 1):
+                kinds.add("sign")
+            else:
+                kinds.add("other-compare")
+        elif cp.endswith("_mm_movemask_epi8"):
+            # movemask of the raw group = its sign bits; movemask of a comparison result adds nothing
+            direct = all(og[0] in ("load", "arg") for og in b.origins(t["args"][0])) if t["args"] else False
+            if direct:
+                kinds.add("sign")
+        elif cp.startswith("control::group::sse2::Group::match_") and cp in F.bodies and cp != b.path:
+            sub = _lane_predicate(F, F.bodies[cp], tagc, depth + 1)
+            if sub == "eq:arg":
+                # which tag is passed?
+                tg = t["args"][1] if len(t["args"]) > 1 else None
+                if tg is not None and tg["k"] == "const" and tg.get("val") in tagc:
+                    sub = "eq:" + tagc[tg["val"]]
+                elif tg is not None and tg["k"] in ("copy", "move") and any(og[0] == "arg" for og in b.origins(tg)):
+                    sub = "eq:arg"
+            if sub:
+                kinds.add(sub)
+    if len(kinds) == 1:
+        return kinds.pop()
+    return None
 
 
 # --------------------------------------------------------------------- R-CLONE-GUARD-RANGE
